@@ -67,6 +67,9 @@ def shapes(r, tier):
     add('holes_min_max', [lo, lo + 1, 3, hi - 1, hi])
     add('holes_singletons', range(0, 42, 2))
     add('holes_mixed', [1, 2, 3, 4, 10, 20, 21, 30, 31, 32, 33, 34, 35])
+    add('holes_single_first_last', [0, 5, 6, 7, 20])
+    add('two_variants', [3, 4])
+    add('two_variants_apart', [0, 64])
     if s:
         add('gapless_neg', range(-3, 3))
         add('gapless_allneg', range(-7, -3))
@@ -196,6 +199,11 @@ def make_decl(r, label, values, order, spelling, naming, rnd, vis='pub'):
                 nm = nm + '\''
                 renames[v] = nm
             seen.add(nm)
+    elif naming == 'prefix':
+        # names that are prefixes of one another, of equal length, and one very long name
+        base = ['a', 'ab', 'abc', 'abcd', 'abd', 'ab ', ' ab', 'AB', 'aB', 'x' * 300]
+        for i, v in enumerate(vals):
+            renames[v] = base[i % len(base)] + ('' if i < len(base) else '#%d' % i)
     elif naming == 'idents':
         # identifiers that are legal but unusual: leading underscore, lower case, non-ASCII, digits
         odd = ['_u', 'lower_case', 'Über', 'X9', 'a', 'Ω', 'snake_case_name', 'CamelCaseName', '__dunder', 'Z']
@@ -381,5 +389,8 @@ def render_module(mod, decl, cfg, hostile=False, **kw):
         return body
     body = ['pub mod %s {' % mod] + hdr
     body += ['    ' + l for l in render_enum(decl, cfg, **kw)]
+    if decl.get('sibling'):
+        # a second derive in the same module: generated items of the two must not collide
+        body += ['    #[derive(Clone, Copy, EnumTools)]', '    #[enum_tools(%s)]' % decl['sibling'], '    #[repr(i16)]', '    pub enum F { P = -1, Q = 0, R = 7 }']
     body.append('}')
     return body
